@@ -212,3 +212,22 @@ class PvDistributePower:
                     bounds_not_positive="self._component_data_caches[21].data.active_power_inclusion_lower_bound <= 0"
                                         " and self._component_data_caches[22].data.active_power_inclusion_lower_bound <= 0")
     ensures = dict(at_most_one_result="self._results_sender.n_sent <= 1")
+
+
+PvEmptyRequestT = Obj(f"{PD}.request:Request", power=PowerT, component_ids=Const(frozenset()), adjust_power=Bool)
+
+
+@contract(f"{PV}.distribute_power", case="no_inverters")
+class PvDistributePowerNoInverters:
+    """A microgrid without PV inverters (no status tracker) and a request addressed to no component: one Success is
+    reported whose three powers still add up to the request - nothing set, everything excess."""
+    self_shape = Obj(PV, _results_sender=SenderT, _api_power_request_timeout=Delta, _target_power=PowerT,
+                     _component_pool_status_tracker=Const(None), _component_data_caches=Const({}))
+    shapes = dict(request=PvEmptyRequestT)
+    modifies = ["self._results_sender"]
+    requires = dict(fresh_sender="self._results_sender.n_sent == 0")
+    ensures = dict(
+        exactly_one_result="self._results_sender.n_sent == 1",
+        powers_add_up="sent(self).succeeded_power + failed_power_of(sent(self)) + sent(self).excess_power == request.power",
+        nothing_addressed="is_success(sent(self)) and len(sent(self).succeeded_components) == 0",
+    )
